@@ -71,6 +71,10 @@ def centroid_com(data, mask=None):
     """
     # preserve input data - which should be a small cutout image
     data = data.copy()
+    if data.dtype.kind in 'iub':
+        # moments of integer data are accumulated in an integer dtype,
+        # which can overflow
+        data = data.astype(float)
 
     if mask is not None and mask is not np.ma.nomask:
         mask = np.asarray(mask, dtype=bool)
